@@ -93,6 +93,11 @@ def configs(tier):
                 cfg.update({"elements": "E,H,HE,C,O,SI", "pseudo-elements": "CRP,PHOTON,CRPHOT", "element-replacement": rep, "network-files": "iceuc.ucl", "file-formats": "uclchem",
                             "grain-model": "rr07", "binding": binding, "yield": yld, "extra-species": "H, H2"})
                 add(cfg, "family:ice-tables-replaced-keys")
+    # user modules (--loading): each defines a reaction format one of the network files is written in
+    for loading, files, fmts in (("fa.py", "net.fa", "fa"), ("fa.py,fb.py", "net.fa,net2.fb", "fa,fb"), ("fa.py, fb.py", "net.fa, net2.fb", "fa, fb"), ("fb.py,fa.py", "net.fa,net2.fb", "fa,fb")):
+        cfg = dict(BASE)
+        cfg.update({"loading": loading, "network-files": files, "file-formats": fmts})
+        add(cfg, "family:loading")
     # a family in which the three species symbols decide how the species lists are read
     # (names with the bulk prefix are not readable by the species parser at all, so the bulk symbol only reaches the TOML)
     for grain, surf, bulk in (("GRAIN", "#", "@"), ("DUST", "#", "@"), ("GRAIN", "G", "@"), ("GRAIN", "#", "B"), ("DUST", "G", "B")):
@@ -158,6 +163,7 @@ def requested(cfg):
     return {
         "name": cfg["name"],
         "description": cfg["description"],
+        "loads": lst(cfg["loading"]),
         "elements": lst(cfg["elements"]) if cfg["elements"] else list(Species.default_elements) if False else lst(cfg["elements"]),
         "pseudo_elements": lst(cfg["pseudo-elements"]),
         "replacement": table(cfg["element-replacement"], ":"),
@@ -183,6 +189,7 @@ def toml_description(t):
     return {
         "name": t["general"]["name"],
         "description": t["general"]["description"],
+        "loads": list(t["general"]["loads"]),
         "elements": list(ch["element"]["elements"]),
         "pseudo_elements": list(ch["element"]["pseudo_elements"]),
         "replacement": dict(ch["element"]["replacement"]),
@@ -258,6 +265,14 @@ def write_inputs(proj: Path):
         "#CO,DEUVCR,NAN,CO,NAN,NAN,NAN,1.0,0.0,0.0,10,41000\n#H2O,DEUVCR,NAN,H2O,NAN,NAN,NAN,1.0,0.0,0.0,10,41000\n"
         "#CO,DESCR,NAN,CO,NAN,NAN,NAN,1.0,0.0,0.0,10,41000\n#H2O,DESCR,NAN,H2O,NAN,NAN,NAN,1.0,0.0,0.0,10,41000\n"
     )
+    kida2 = F.enc_kida(F.AReaction(["C", "CH"], ["C2", "H"], 6.59e-11, 0.0, 0.0, 10, 300, 5173, 3)) + "\n"
+    (proj / "net.fa").write_text((proj / "net.kida").read_text())
+    (proj / "net2.fb").write_text(kida2)
+    for nm in ("fa", "fb"):
+        (proj / f"{nm}.py").write_text(
+            "from naunet.network import define_reaction\nfrom naunet.reactions.kidareaction import KIDAReaction\n\n\n"
+            f"@define_reaction(\"{nm}\")\nclass Format{nm.upper()}(KIDAReaction):\n    pass\n"
+        )
     (proj / "iceuc.ucl").write_text(
         "SIO,FREEZE,NAN,#SIO,NAN,NAN,NAN,1.0,0.0,0.0,10,41000\nCO,FREEZE,NAN,#CO,NAN,NAN,NAN,1.0,0.0,0.0,10,41000\n"
         "#SIO,DEUVCR,NAN,SIO,NAN,NAN,NAN,1.0,0.0,0.0,10,41000\n#CO,DEUVCR,NAN,CO,NAN,NAN,NAN,1.0,0.0,0.0,10,41000\n"
@@ -284,6 +299,12 @@ def api_render(desc, proj: Path, out: Path):
     old = os.getcwd()
     os.chdir(proj)
     try:
+        for modfile in desc.get("loads", []):
+            from importlib import util
+
+            spec = util.spec_from_file_location(modfile, Path(proj) / modfile)
+            module = util.module_from_spec(spec)
+            spec.loader.exec_module(module)
         net = Network(
             filelist=list(desc["files"]), fileformats=list(desc["formats"]), elements=list(desc["elements"]), pseudo_elements=list(desc["pseudo_elements"]),
             allowed_species=list(desc["allowed"]), required_species=list(desc["required"]), species_kwargs=kw, grain_model=desc["grain_model"],
